@@ -326,3 +326,6 @@ def run(pm, ctx, rule, patterns):
                 rule, f.short, ', '.join(h.split('|')[0] for h in new_h)))
     ctx.extra['%s_functions' % rule] = n
     ctx.floor(rule, n, 1, 'functions compared with the reference')
+    # the order of updates and reads (rule <ID>-RO) covers the same functions
+    from . import orderdrift
+    orderdrift.run(pm, ctx, rule.replace('-MU', '-RO'), patterns)
